@@ -43,8 +43,10 @@ def all_templates(ctx):
     for c, b in ctx.P.all_bodies(GEN):
         if "body" not in b or q.derived(b):
             continue
+        N = None
         for node, items, kind, parent in T.find_templates(b["body"]):
-            out.append((b, node, items, kind))
+            N = N or Norm(b)
+            out.append((b, node, T.flatten(items, N), kind))      # hoisted sub-templates stand for their tokens
     return out
 
 
